@@ -217,6 +217,18 @@ fn gen_hoststr(rng: &mut Rng) -> (String, &'static str) {
 // ---------------------------------------------------------------------------------------------
 // checks
 
+/// Address class as used in violation keys (the fine class stays in the coverage classes).
+fn coarse_addr_class(c: &str) -> &'static str {
+    match c {
+        "host-with-at" => "text-with-at",
+        "odd-text" => "text-odd",
+        "all-ports" => "all-ports",
+        _ if c.starts_with("v4-") && c != "v4-text" => "v4",
+        _ if c.starts_with("v6-") && c != "v6-text" => "v6",
+        _ => "text",
+    }
+}
+
 struct Ck<'a> {
     l: &'a mut Local,
     tname: &'static str,
@@ -230,7 +242,7 @@ struct Ck<'a> {
 impl Ck<'_> {
     fn fail(&mut self, entry: &str, defect: &str, what: String, title: Option<&str>, addr_text: &str, printed: &str) {
         self.l.violation(
-            format!("{}<{}>|{}|title:{}|addr:{}", entry, self.tname, defect, if title.is_some() { self.tclass } else { "none" }, self.aclass),
+            format!("{}<{}>|{}|title:{}|addr:{}", entry, self.tname, defect, if title.is_some() { self.tclass } else { "none" }, coarse_addr_class(self.aclass)),
             what,
             json!({"seed": self.seed, "stream": self.stream, "case": self.idx, "type": format!("{}<{}>", entry, self.tname),
                    "title": title, "title_escaped": title.map(|t| t.escape_debug().to_string()),
